@@ -260,9 +260,11 @@ def macro_tables(data_src):
     return tabs
 
 
-def data_accessors(data_src):
-    """Shape of the three representations' accessors in data.rs (one token per representation);
-    the model (Model/Ffi.v, [denote]) is written against exactly these shapes."""
+def data_accessors(data_src, errors):
+    """Shape of the three representations' accessors in data.rs (one token per accessor);
+    the model (Model/Ffi.v, [denote]) is written against exactly these shapes.  An accessor that no longer
+    has its shape gets the token "unrecognised:<shape>" (ffi_accessors_as_modelled then fails) and the run
+    module still builds, so that the correspondence run can look for a failing input."""
     flat = ws(data_src)
     shapes = []
     want = [
@@ -278,8 +280,10 @@ def data_accessors(data_src):
     ]
     for rep, shape, pat in want:
         if not re.search(pat, flat):
-            raise Fail("data.rs: accessor %s/%s no longer has the shape the model mirrors" % (rep, shape))
-        shapes.append((rep, shape))
+            errors.append("data.rs: accessor %s/%s no longer has the shape the model mirrors" % (rep, shape))
+            shapes.append((rep, "unrecognised:" + shape))
+        else:
+            shapes.append((rep, shape))
     # Data::len / type_ / to_slice dispatch to the representation's own field / method
     for pat, what in (
         (r"pub fn len\(&self\) -> usize \{ match self \{ Self::Array\(iter\) => iter\.len\(\), Self::Constant\(iter\) => iter\.len\(\), Self::Fn\(iter\) => iter\.len\(\), \} \}", "Data::len"),
@@ -287,10 +291,12 @@ def data_accessors(data_src):
         (r"Ok\(match self \{ Self::Array\(iter\) => Cow::from\(iter\.to_slice\(\)\), Self::Constant\(iter\) => Cow::from\(iter\.to_slice\(\)\?\), Self::Fn\(iter\) => Cow::from\(iter\.to_slice\(\)\?\), \}\)", "Data::to_slice"),
     ):
         if not re.search(pat, flat):
-            raise Fail("data.rs: %s no longer has the shape the model mirrors" % what)
+            errors.append("data.rs: %s no longer has the shape the model mirrors" % what)
+            shapes.append(("Data", "unrecognised:" + what))
     for rep in ("Array", "Constant", "Fn"):
         if not re.search(r"impl %s \{ pub fn len\(&self\) -> usize \{ self\.len \}" % rep, flat):
-            raise Fail("data.rs: %s::len is not the stored length" % rep)
+            errors.append("data.rs: %s::len is not the stored length" % rep)
+            shapes.append((rep, "unrecognised:len"))
     return shapes
 
 
@@ -510,7 +516,7 @@ def analyse_entry(name, f, fns, macros):
                 ok_code=ok_code, err=err, wtypes=wtypes, wvia=wvia, pview=pview, alg=alg, fields=fields, scalars=scalars)
 
 
-def gen_ffi():
+def gen_ffi_tables(errors):
     lib = strip_comments(read(LIB))
     dat = strip_comments(read(DATA))
     hdr = strip_comments(read(HDR))
@@ -564,7 +570,7 @@ def gen_ffi():
 
     # (c) exported functions
     macros = macro_tables(dat)
-    shapes = data_accessors(dat)
+    shapes = data_accessors(dat, errors)
     exported, entries = [], []
     for name, f in fns.items():
         if f["extern_c"] and f["pub"] and not f["no_mangle"]:
@@ -650,6 +656,8 @@ def gen_ffi():
     o += "Definition ffi_macro_types : list (string * list (string * string)) := %s.\n" % coq_list(
         "(%s, %s)" % (S(k), coq_list("(%s, %s)" % (S(a), S(b)) for a, b in v)) for k, v in sorted(macros.items()))
     o += "Definition ffi_data_accessors : list (string * string) := %s.\n" % coq_list("(%s, %s)" % (S(a), S(b)) for a, b in shapes)
+    o += "\n(* what the translator could not read as the model expects (must be empty: ffi_translator_clean) *)\n"
+    o += "Definition ffi_translator_errors : list string := %s.\n" % coq_list(S(clean(e)) for e in errors)
     o += "\n(* (d) functions declared in coupe.h *)\n"
     o += "Definition ffi_declared : list string := %s.\n" % coq_list(S(n) for n in declared)
     o += "\n(* prototypes on both sides: (name, parameter types in order, return type), types as ABI tokens\n"
@@ -659,6 +667,55 @@ def gen_ffi():
     o += "Definition ffi_header_prototypes : list (string * list string * string) := %s.\n" % coq_list(
         "(%s, %s, %s)" % (S(n), coq_list(S(t) for t in ps), S(r)) for n, ps, r in hsigs)
     return o
+
+
+def clean(msg):
+    return re.sub(r"[^A-Za-z0-9 _.,:;<>()\[\]{}=!&|*/+%'#@?-]", " ", msg.replace('"', "'"))[:300]
+
+
+FALLBACK = """From Coq Require Import String List NArith.
+Import ListNotations.
+Local Open Scope string_scope.
+
+(* The translator could not read the source as the model expects.  Well-typed empty tables: the run module still
+   builds (every case then fails the correspondence, the model-free property clause is still judged, so a concrete
+   failing input can still be found), Model/FfiInst.v and every theorem do not. *)
+Definition ffi_translator_errors : list string := [%s].
+Definition ffi_rust_error_enum : list string := [].
+Definition ffi_header_error_enum : list string := [].
+Definition ffi_rust_type_enum : list string := [].
+Definition ffi_header_type_enum : list string := [].
+Definition ffi_coupe_error_enum : list string := [].
+Definition ffi_hilbert_error_enum : list string := [].
+Definition ffi_error_arms : list (string * string) := [].
+Definition ffi_error_wildcard : string := "".
+Definition ffi_guard_code : string := "".
+Definition ffi_exported : list string := [].
+Record ffi_entry := mk_ffi_entry {
+  fe_name : string; fe_guarded : bool; fe_prechecks : list (string * string); fe_count_from : string;
+  fe_dims : list N; fe_dim_default : string; fe_ok : string; fe_err : string;
+  fe_weight_types : list (string * string); fe_weights_via : string; fe_points : string;
+  fe_alg : string; fe_scalar_args : list string; fe_fields : list (string * string * string) }.
+Definition ffi_entries : list ffi_entry := [].
+Definition ffi_macro_types : list (string * list (string * string)) := [].
+Definition ffi_data_accessors : list (string * string) := [].
+Definition ffi_declared : list string := [].
+Definition ffi_rust_prototypes : list (string * list string * string) := [].
+Definition ffi_header_prototypes : list (string * list string * string) := [].
+"""
+
+
+def gen_ffi():
+    errors = []
+    try:
+        out = gen_ffi_tables(errors)
+    except Fail as e:
+        errors = [str(e)]
+        out = HEADER.format(src="(pattern not found)") + FALLBACK % coq_str(clean(str(e)))
+    for e in errors:
+        # a line of the translator's output that check.py records as a broken obligation
+        print("FfiTables.v error: %s" % clean(e))
+    return out
 
 
 GENERATORS = {"FfiTables.v": gen_ffi}
@@ -682,6 +739,12 @@ PROP = dict(
          "count, a third part, 0/finite limits, negative/zero/positive/NaN imbalance; inputs that panic inside the library (NaN weight "
          "under Real::cmp, tolerance that does not convert, part count usize::MAX, i32 sums that overflow, NaN imbalance) whose C call "
          "runs in a child process; 1/6 of the geometric cases on a second copy of the library with a 4-worker pool (exact inputs only); "
+         "half of the double weights of greedy / kk / ckk / hilbert are proper fractions, non-dyadic fractional parts, magnitudes beyond "
+         "2^53, negative zero or subnormals; the first 18 cases of a quick run (96 of a thorough run) are LARGE data sets, n in {4095, "
+         "4096, 4097, 5000, 8191, 8192, 8193, 10000}, for the entry points that copy a data set (rib points, hilbert points and weights, "
+         "fiduccia_mattheyses weights; rcb in thorough) x array / constant / callback x element types in rotation: these are compared "
+         "with the Rust API inside the harness and only the verdict, the first differing index, the number of differing cells and a "
+         "digest of each array go to Coq (the model is not evaluated on them); "
          "distinct = distinct (thread mode, entry, dimension, both data sets with representation/tag/cells, adjacency, parameters, "
          "initial array); non-trivial = at least 2 weights",
     class_names={0: "OK", 1: "ALLOC", 2: "CRASH", 3: "BAD_DIMENSION", 4: "BAD_TYPE", 5: "BIPART_ONLY", 6: "LEN_MISMATCH",
